@@ -26,6 +26,10 @@ CLAIMED = {
  "C07": dict(engine="filters", design="5 C07",
    technique="RFC 6352 10.5 transcribed as set-valued TLA+ operators (CardFilter: invalid enumeration values must error unless they cannot matter); TLC-enumerated universes executed on the real carddav.Match/Filter and judged by TLC",
    text="Exhaustive over: outer test x inner test x match type (each incl. unset and invalid) x negate x is-not-defined x presence x texts/values over a two-letter alphabet with up to two text-matches (21k-38k queries x 6 cards), 0-2 prop-filters over two properties (3 252 queries x 9 cards), card lists of length 0-4 x Limit -1..6 x 10 projections x 3 queries (29 040 cases); repeated under several alphabets (XML metacharacters, non-ASCII, case variants, long strings)."),
+ "C18": dict(engine="conc", design="5 C18",
+   technique="TLA+ Upload spec (safety + liveness under fairness) whose full TLC state graph is covered transition by transition with behaviours replayed through the real Client.Create via a scripted HTTPClient; real net/http upload traces validated by a TLC trace spec with inferred transport steps; DavConc (all interleavings) + per-client histories of concurrent runs judged by DavTree; Go race detector for the data-race clause",
+   text="Upload: every one of the 3 897 transitions / 40 fault plans of the model (2 chunks x 2 units) is stepped through the real code at several unit sizes (1 B .. 1 MiB); Close result nil <=> 2xx, Close only after the answer (checked by construction: the answer is not issued before), writes fail once the body is closed, termination (10 s watchdog), no library goroutine left (goroutine profile). Real transport: 75 uploads (4 server faults x 4 read amounts x 5 sizes up to 8 MiB) must each be a behaviour of Upload. Concurrency: DisjointIndependence model-checked over all interleavings (424k states); 2-8 goroutines x 12-50 requests on disjoint subtrees through one handler / one client, GOMAXPROCS varied, every per-client log a sequential DavTree history; -race on every recorder.",
+   note="Trusted base: TLC; the scripted HTTPClient as a faithful stand-in for a RoundTripper (always closes the body); the Go race detector (no false positives) decides the data-race clause, not the specification; watchdog-based hang detection is confirmed by re-execution."),
  "C19": dict(engine="filters", design="5 C19",
    technique="RFC 4791 4.1 rules as TLA+ operators (CalFilter.Valid/TheType/TheUid); all 108 482 calendars enumerated by TLC, executed on the real ValidateCalendarObject, judged by TLC (incl. count and order of the executed universe)",
    text="Exhaustive in both tiers: every sequence of <= 4 components over five types x UID {absent, u1, u2}, with and without METHOD; accept/reject, returned type and UID, empty results on rejection, argument unchanged; UID tokens concretised several ways (escaped characters, prefix-related UIDs)."),
@@ -66,6 +70,9 @@ m = {
   {"name": "filters", "path": "spec/CalFilter.tla spec/CalGen.tla spec/CalJudge.tla spec/CardFilter.tla spec/CardGen.tla spec/CardJudge.tla spec/ValJudge.tla harness/cmd/calrec harness/cmd/cardrec lib/checks_filter.py",
    "serves_properties": ["C06", "C07", "C19"],
    "kind_free_text": "RFC decision procedures transcribed as TLA+ operators; TLC enumerates the bounded input space and judges every verdict of the real Go functions"},
+  {"name": "conc", "path": "spec/Upload.tla spec/UploadTrace.tla spec/DavConc.tla lib/upgraph.py harness/cmd/uprec harness/cmd/concrec lib/checks_conc.py",
+   "serves_properties": ["C18"],
+   "kind_free_text": "protocol model with liveness; state-graph transition cover replayed into the real code; trace validation of real-transport runs; concurrency histories under the race detector"},
   {"name": "davtree", "path": "spec/DavTree.tla spec/DavTreeMC.tla spec/DavSim.tla spec/DavJudge.tla harness/cmd/davrec lib/checks_dav.py",
    "serves_properties": ["C01", "C02", "C03", "C04", "C17"],
    "kind_free_text": "TLA+ resource-tree specification; TLC model check + case generation; Go recorder on the real webdav.Handler; TLC trace-validation judge"},
